@@ -279,6 +279,12 @@ class system_error(FeedbackResponse):
     valence = Feedback.NEUTRAL_VALENCE
     muted = True
 
+    def __init__(self, tool_name, message=None, **kwargs):
+        # (the tools call this as system_error(TOOL_NAME, "what went wrong"))
+        if message is not None:
+            kwargs['message'] = message
+        super().__init__(tool_name, **kwargs)
+
 
 # TODO: set_line_offset(offset, filename='answer.py')
 
